@@ -1098,6 +1098,12 @@ sexp sexp_complex_expt (sexp ctx, sexp a, sexp b) {
   res = sexp_to_complex(ctx, a);
   res = sexp_complex_log(ctx, res);
   res = sexp_mul(ctx, b, res);
+  if (!sexp_complexp(res))      /* e.g. a zero exponent: the product is real */
+    res = sexp_to_complex(ctx, res);
+  if (!sexp_complexp(res)) {
+    sexp_gc_release1(ctx);
+    return res;
+  }
   res = sexp_complex_exp(ctx, res);
   sexp_gc_release1(ctx);
   return res;
